@@ -20,6 +20,8 @@
 //! DEVELOPMENT SWITCHES (env): C04_K, C04_EXTEND override the bounds (shown in `bounds`);
 //!          C04_ONLY=x2|corpus|blobs restricts the sources and marks the run non-exhaustive.
 
+mod dcounts;
+mod direct;
 mod domain;
 mod names;
 mod packed;
@@ -100,6 +102,8 @@ pub struct TypeOps {
     pub reader: &'static str,
     /// count-width family: the all-default value with the named array fields forced to n elements
     pub bound_case: fn(&Ctx, &TypeOps, &widths::Group, usize, bool, &mut Local),
+    /// distinct-counts family: the value selected by one (mode, order, presence) spec
+    pub dc_case: fn(&Ctx, &TypeOps, &dcounts::Spec, &mut Local),
 }
 
 impl TypeOps {
@@ -127,12 +131,15 @@ pub fn ops_with<T: Owned, R: Reader<T>>(
         parsed: parsed::<T, R>,
         reader,
         bound_case: widths::bound_case::<T, R>,
+        dc_case: dcounts::dc_case::<T, R>,
     }
 }
 
 pub struct Ctx<'a> {
     pub run: &'a Run,
     pub schema: Schema,
+    /// schema of the pinned tree (distinct-counts family), see `Schema::pinned`
+    pub pinned: Schema,
     pub alpha: Alphabets,
     pub tier_name: &'static str,
     pub k: usize,
@@ -993,6 +1000,7 @@ pub fn corpus_jobs(reg: &[TypeOps]) -> Vec<(usize, String, Vec<u8>, FontArgs)> {
 fn body(run: &Run, replay: Option<&Value>) {
     run.rule("a case is one owned value of one registered write-fonts type: either the value selected by a choice tape with ≤ k non-zero choices (X2, all tapes enumerated) or T::read of a corpus table / test-data blob; it is judged if schema-consistent; it is non-trivial when it has ≥ 1 non-default choice (or is parse-derived), validates, compiles to ≥ 4 bytes and passes; distinct = distinct (type, compiled bytes)");
     run.assume("schema consistency is computed from resources/codegen_inputs/*.rs by the harness build script (count relations, literal counts, plain version vs since_version, if_flag presence, declared flag bits, Pending* placeholders); values outside are counted, never judged");
+    run.assume("distinct-counts family: count relations, optional fields and literal counts are taken from pinned_schema.json (the build script's transcription of resources/codegen_inputs on the pinned tree), not from the live codegen inputs, so a relation changed consistently in schema, reader and writer is still contradicted; differences between pinned and live relations are listed in the evidence");
     run.assume("PartialEq of the owned types is the equality of the property; the serde rendering is only used to name the first differing field and to evaluate the schema predicates");
     run.assume("serde's derived Deserialize constructs exactly the value described by the visited fields (trusted: serde, serde_json, vcore explorer)");
     let mut reg = registry();
@@ -1002,6 +1010,7 @@ fn body(run: &Run, replay: Option<&Value>) {
         let ctx = Ctx {
             run,
             schema: Schema::load(),
+        pinned: Schema::pinned(),
             alpha: alphabets(tier),
             tier_name: if tier == "thorough" { "thorough" } else { "quick" },
             k: 0,
@@ -1020,6 +1029,25 @@ fn body(run: &Run, replay: Option<&Value>) {
         if case["source"].as_str() == Some("count_width") {
             let mut l = Local::default();
             widths::replay(&ctx, &reg, case, &mut l);
+            for (k, v) in &l.counters {
+                println!("  {k} = {v}");
+            }
+            return;
+        }
+        if case["source"].as_str() == Some("direct_family") {
+            let mut l = Local::default();
+            direct::one(&ctx, &reg, case, &mut l);
+            for (k, v) in &l.counters {
+                println!("  {k} = {v}");
+            }
+            for m in &l.machinery {
+                run.machinery_error(m);
+            }
+            return;
+        }
+        if case["source"].as_str() == Some("distinct_counts") {
+            let mut l = Local::default();
+            dcounts::replay(&ctx, &reg, case, &mut l);
             for (k, v) in &l.counters {
                 println!("  {k} = {v}");
             }
@@ -1083,6 +1111,7 @@ fn body(run: &Run, replay: Option<&Value>) {
     let ctx = Ctx {
         run,
         schema: Schema::load(),
+        pinned: Schema::pinned(),
         alpha: alphabets(tier_name),
         tier_name: if tier_name == "thorough" { "thorough" } else { "quick" },
         k: std::env::var("C04_K").ok().and_then(|s| s.parse().ok()).unwrap_or(run.tier.pick(2, 3)),
@@ -1253,6 +1282,20 @@ fn body(run: &Run, replay: Option<&Value>) {
     // ---- source 6: count-width boundary family ---------------------------------------------------
     if want("widths") {
         let l = widths::run_family(&ctx, &reg);
+        total.lock().unwrap().merge(l);
+    }
+
+    // ---- source 7: distinct-counts family ---------------------------------------------------------
+    if want("dcounts") {
+        let t = run.elapsed();
+        let l = dcounts::run_family(&ctx, &reg);
+        total.lock().unwrap().merge(l);
+        run.extra("distinct_counts_wall_s", json!(run.elapsed() - t));
+    }
+
+    // ---- source 8: direct families for hand-computed counts (fvar, PairPos 2, MarkBasePos) -----------
+    if want("direct") {
+        let l = direct::run_families(&ctx, &reg);
         total.lock().unwrap().merge(l);
     }
 
